@@ -474,6 +474,36 @@ func TestT(t *testing.T) {
 	})
 }
 
+// TestTGrid: every integral and half-integral number of degrees of freedom up to 1000 (the
+// values pooled and one-sample tests produce, and the natural keys of a table of normalising
+// constants or of a closed form by recurrence), then every integer up to 10000 in steps; a few
+// fixed abscissae each, among them sqrt(V) where the evaluation switches form.
+func TestTGrid(t *testing.T) {
+	if ev.Replaying() {
+		return
+	}
+	ev.Rule(rule)
+	var vs []float64
+	for k := 1; k <= 2000; k++ {
+		vs = append(vs, float64(k)/2)
+	}
+	step := 7
+	if ev.Thorough() {
+		step = 1
+	}
+	for k := 1001; k <= 10000; k += step {
+		vs = append(vs, float64(k))
+	}
+	ev.Parallel(t, len(vs), func(tb ev.TB, i int) {
+		if !ev.MyShare(i) {
+			return
+		}
+		v := vs[i]
+		checkT.RunEnum(tb, &TCase{V: v, Xs: []float64{-1, 0.3, 2.5, math.Sqrt(v), -0.9 * math.Sqrt(v)}})
+	})
+	ev.Exhaustive("TDist with V = k/2 for every k <= 2000 and integral V up to 10000 (quick: every 7th above 1000) at five fixed abscissae")
+}
+
 func TestDelta(t *testing.T) {
 	ev.Rule(rule)
 	ev.Rapid(t, "c05-delta", 300, 20000, func(rt *rapid.T) {
